@@ -455,6 +455,17 @@ class ZygotePair:
             res.append(resp["obs"])
         return res
 
+    def forget(self):
+        """Drop the handles of a pair that belongs to the parent process (after fork): close our copies of the pipes only."""
+        for p in self.procs:
+            for fh in (p.stdin, p.stdout, p.stderr):
+                try:
+                    fh.close()
+                except Exception:
+                    pass
+            p.returncode = 0  # not our child to reap: keeps Popen.__del__ quiet
+        self.procs = []
+
     def close(self):
         for p in self.procs:
             try:
